@@ -9,6 +9,9 @@
 (*   pluck  every key set over {a,b,c} x every key list of length <= 3      *)
 (*   pluckw every key set x key list of length <= 2 x one write (= += -= ++ *)
 (*          -- prefix/postfix) to one key through the copy or the receiver  *)
+(*   pluckj every key set over {a,b,c,d} (d holds an object) x key list of   *)
+(*          length <= 2 x nine arrangements of the receiver, the result and  *)
+(*          their shared member, written by json(): shared is not cyclic     *)
 (*   proto  key lists that name a method of the object prototype            *)
 (*   numb   num() on the string universe of DESIGN.md 3.1                   *)
 (*   numbig num() on digit strings of every length up to 22 around the      *)
@@ -42,6 +45,50 @@ RECURSIVE PairsFrom(_, _)
 PairsFrom(o, order) ==
   IF order = <<>> THEN <<>>
   ELSE (IF Head(order) \in DOMAIN o THEN <<[key |-> Head(order), val |-> o[Head(order)]]>> ELSE <<>>) \o PairsFrom(o, Tail(order))
+\* ---- family "pluckj": the receiver and the result of pluck written TOGETHER by json().  The result holds "the
+\* original's values": a member that is an array or an object is the SAME array / object in both (a shallow copy).
+\* A value in which a container is reachable along two paths is still a finite tree for json() -- only a value that
+\* contains ITSELF is refused -- so json() of any arrangement of o, p = o.pluck(keys), o.d and p.d is the JSON text of
+\* the arrangement with every occurrence written out.  An arrangement is a tree: a leaf names o, p, o.d or p.d.
+KD == Chars("d")
+KeysJ == Keys \cup {KD}
+KeyOrderJ == KeyOrder \o <<KD>>
+ValOfJ(key) == IF key = KD THEN VObj(1) ELSE ValOf(key)
+ObjOverJ(ks) == [key \in ks |-> ValOfJ(key)]
+JLeaf(x) == [t |-> "leaf", x |-> x]
+JArr(items) == [t |-> "arr", items |-> items]
+JObj(keys, items) == [t |-> "obj", keys |-> keys, items |-> items]
+Arrangements == <<
+  JArr(<<JLeaf("o"), JLeaf("p")>>),                                            \* [o, p]
+  JObj(<<"orig", "copy">>, <<JLeaf("o"), JLeaf("p")>>),                        \* {orig: o, copy: p}
+  JArr(<<JLeaf("p"), JLeaf("p")>>),                                            \* the result twice
+  JObj(<<"orig", "copies">>, <<JLeaf("o"), JArr(<<JLeaf("p"), JLeaf("p")>>)>>),
+  JArr(<<JLeaf("od"), JLeaf("pd")>>),                                          \* the shared member itself, twice
+  JArr(<<JLeaf("p"), JLeaf("o"), JLeaf("p"), JLeaf("od")>>),
+  JObj(<<"x", "y">>, <<JObj(<<"z">>, <<JLeaf("p")>>), JObj(<<"z">>, <<JLeaf("o")>>)>>),
+  JLeaf("p"), JLeaf("o") >>
+\* the arrangement with every leaf written out: o and p as their members, o.d / p.d as the member's value (null when absent)
+MemberOrNull(obj, key) == IF key \in DOMAIN obj THEN obj[key] ELSE VNull
+RECURSIVE Unfold(_, _, _)
+Unfold(tr, o, p) ==
+  CASE tr.t = "leaf" ->
+         (CASE tr.x = "o" -> [t |-> "pairs", pairs |-> PairsFrom(o, KeyOrderJ)]
+            [] tr.x = "p" -> [t |-> "pairs", pairs |-> PairsFrom(p, KeyOrderJ)]
+            [] tr.x = "od" -> [t |-> "val", val |-> MemberOrNull(o, KD)]
+            [] tr.x = "pd" -> [t |-> "val", val |-> MemberOrNull(p, KD)])
+    [] tr.t = "arr" -> [t |-> "arr", items |-> [i \in 1..Len(tr.items) |-> Unfold(tr.items[i], o, p)]]
+    [] tr.t = "obj" -> [t |-> "obj", keys |-> tr.keys, items |-> [i \in 1..Len(tr.items) |-> Unfold(tr.items[i], o, p)]]
+\* the containers (by identity) an arrangement reaches, with multiplicity: o, p, and the members of o that are containers
+\* (p's members ARE o's members)
+RECURSIVE LeavesOf(_)
+LeavesOf(tr) == IF tr.t = "leaf" THEN <<tr.x>> ELSE FlattenSeq([i \in 1..Len(tr.items) |-> LeavesOf(tr.items[i])])
+IsContainer(v) == v.k \in {"arr", "obj"}
+ReachCount(tr, o, p, key) ==          \* how many times the container o[key] is written out
+  Cardinality({i \in 1..Len(LeavesOf(tr)) :
+     \/ LeavesOf(tr)[i] = "o" /\ key \in DOMAIN o
+     \/ LeavesOf(tr)[i] = "p" /\ key \in DOMAIN p /\ key \in DOMAIN o
+     \/ LeavesOf(tr)[i] = "od" /\ key = KD /\ KD \in DOMAIN o
+     \/ LeavesOf(tr)[i] = "pd" /\ key = KD /\ KD \in DOMAIN p /\ KD \in DOMAIN o})
 ProtoKeys == <<Chars("length"), Chars("pluck")>>
 ProtoLists == << <<ProtoKeys[1]>>, <<ProtoKeys[2]>>, <<KA, ProtoKeys[1]>>, <<ProtoKeys[1], KB, ProtoKeys[2]>> >>
 
@@ -111,6 +158,7 @@ Init ==
      \/ fam = "numbig" /\ a \in 1..Len(BigTexts)
      \/ fam = "num" /\ a \in 1..Len(NumDomain)
      \/ fam = "pluck" /\ a \in SUBSET Keys
+     \/ fam = "pluckj" /\ a \in SUBSET KeysJ
      \/ fam = "proto" /\ a \in 1..Len(ProtoLists)
      \/ fam = "numb" /\ a \in 1..Len(NumbStrings)
      \/ fam = "call" /\ a \in 1..(Len(Methods) + Len(Builtins))
@@ -118,6 +166,7 @@ Next ==
   /\ ~done /\ done' = TRUE /\ UNCHANGED <<fam, a>>
   /\ CASE fam = "split" -> b' \in SymSeqs(2)
        [] fam = "pluck" -> b' \in SeqsUpTo(Keys, 3)
+       [] fam = "pluckj" -> b' \in SeqsUpTo(KeysJ, 2) \X (1..Len(Arrangements))
        [] fam = "pluckw" -> b' \in SeqsUpTo(Keys, 2) \X {"copy", "recv"} \X Keys \X MemberWrites     \* <<key list, written object, written key, write>>
        [] fam = "numbig" -> b' \in 1..(NBigDecor + Len(BadDecor))
        [] fam = "call" -> b' \in (IF a <= Len(Methods) THEN 1..Len(Receivers) ELSE {0}) \X (1..Len(ArgLists))
@@ -220,6 +269,26 @@ PluckLaws(ks, keys) ==
   /\ Pluck(p, keys) = p                                             \* idempotent
   /\ Pluck(o, KeyOrder) = [key \in Keys |-> IF key \in ks THEN ValOf(key) ELSE VNull]
 
+\* --- pluck over objects whose members include an object; what json() of an arrangement is
+PluckJsonLaws(ks, keys, ai) ==
+  LET o == ObjOverJ(ks)
+      r == PluckH([i \in {1} |-> o], 1, keys)
+      p == r.heap[r.id]
+      tr == Arrangements[ai]
+      u == Unfold(tr, o, p)
+  IN
+  /\ r.heap[1] = o /\ DOMAIN p = Range(keys)
+  /\ \A key \in DOMAIN p : p[key] = (IF key \in ks THEN ValOfJ(key) ELSE VNull)          \* the original's values
+  \* the arrangements do what they are meant to: over all of them, an object member is written out twice or more
+  /\ (KD \in ks /\ KD \in Range(keys) /\ ai = 1) => ReachCount(tr, o, p, KD) = 2
+  /\ (KD \in ks /\ KD \in Range(keys) /\ ai = 6) => ReachCount(tr, o, p, KD) = 4
+  /\ (KC \in ks /\ KC \in Range(keys) /\ ai = 2) => ReachCount(tr, o, p, KC) = 2
+  \* the text has one occurrence per path: as many leaves as the arrangement, each with the members of its object
+  /\ Len(LeavesOf(tr)) >= 1
+  /\ tr.t = "arr" => u.t = "arr" /\ Len(u.items) = Len(tr.items)
+  /\ tr = JLeaf("p") => u.pairs = PairsFrom(Pluck(o, keys), KeyOrderJ)
+  /\ tr = JLeaf("o") => Len(u.pairs) = Cardinality(ks)
+
 NumbLaws(i) ==
   LET s == Chars(NumbStrings[i])  r == NumBuiltin(VStr(s)) IN
   /\ r.k \in {"num", "null"}
@@ -293,6 +362,7 @@ Laws == done =>
     [] fam = "str" -> StrLaws(a)
     [] fam = "num" -> NumLaws(NumDomain[a])
     [] fam = "pluck" -> PluckLaws(a, b)
+    [] fam = "pluckj" -> PluckJsonLaws(a, b[1], b[2])
     [] fam = "numb" -> NumbLaws(a)
     [] fam = "pluckw" -> PluckWriteLaws(a, b[1], b[2], b[3], b[4])
     [] fam = "numbig" -> NumBigLaws(a, b)
@@ -319,6 +389,10 @@ Vec == done =>
     [] fam = "pluck" ->
          LET o == ObjOver(a)  p == Pluck(o, b) IN
          Emit([fam |-> fam, obj |-> PairsFrom(o, KeyOrder), keys |-> b, res |-> PairsFrom(p, KeyOrder), len |-> ObjLen(p), olen |-> ObjLen(o)])
+    [] fam = "pluckj" ->
+         LET o == ObjOverJ(a)  p == Pluck(o, b[1]) IN
+         Emit([fam |-> fam, obj |-> PairsFrom(o, KeyOrderJ), keys |-> b[1], res |-> PairsFrom(p, KeyOrderJ),
+               shape |-> Arrangements[b[2]], want |-> Unfold(Arrangements[b[2]], o, p)])
     [] fam = "proto" ->
          \* the object {a: 1}; keys that name a prototype method are absent keys: null
          LET o == ObjOver({KA})  keys == ProtoLists[a]  p == Pluck(o, keys) IN
